@@ -97,8 +97,11 @@ theorem vote_transaction (H : Bytes → Bytes) (s : State) (id : Bytes) (a : Add
 
 /-- No other transaction touches a vote ledger entry. -/
 theorem other_transactions_dont_vote (H : Bytes → Bytes) (s : State) (op : Op) (id : Bytes) (h : ∀ a, op ≠ .vote id a)
-    (hd : ∀ sg r c cc, op ≠ .deposit sg r c id cc) : voteEntry (step H s op) id = voteEntry s id := by
-  unfold voteEntry; rw [votes_sigs_frame H s op id h hd]
+    (hd : ∀ sg r c cc, op ≠ .deposit sg r c id cc)
+    (hf : ∀ sg a chain view fee, op = .fee sg a chain view fee →
+      strBytes "updateFee" ++ u64le chain ++ u64le (feeRound s a chain view fee).fv ≠ id) :
+    voteEntry (step H s op) id = voteEntry s id := by
+  unfold voteEntry; rw [votes_sigs_frame H s op id h hd hf]
 
 /-- The vote handler (VoteHandler.MakeDepositProposal) hands a source transaction on only when the relayer signed, is a
 current consensus validator, and its vote is the one that releases the ledger entry (first quorum); a transaction
@@ -122,6 +125,32 @@ theorem deposit_released_only_at_quorum (H : Bytes → Bytes) (s : State) (sg : 
     all_goals try (simp at hr; done)
     rename_i hw hst _ gv pool hcp _ cons hca _ info hvs _ c hdone
     refine ⟨by simpa using hw, by simpa using hst, gv, pool, cons, info, c, hcp, hca, hvs, rfl, by simpa using hdone, rfl⟩
+
+/-- Fee proposals (side_chain_manager.UpdateFee, another caller of CheckVotes): a proposal needs the witness of its
+address and the current fee view; a new fee (five times the median of the view's proposals) is installed, and the view
+advanced, only by the vote that releases the ledger entry "updateFee" ‖ chain ‖ view, i.e. at the first quorum of
+distinct current validators; every other accepted proposal only records itself. -/
+theorem fee_installed_only_at_quorum (H : Bytes → Bytes) (s : State) (sg : List Addr) (a : Addr) (chain view fee : Nat)
+    (o : Out) (h : exec H s (.fee sg a chain view fee) = .ok o) :
+    witness sg a = true ∧ ((alGet s.fees chain).getD (0, 0)).1 = view ∧
+    (o.st.fees = (feeRound s a chain view fee).fees ∨
+     ∃ gv pool cons vinfo, curPool s = some (gv, pool) ∧ consAddrs s pool = some cons ∧
+       voteStep (voteEntry s (strBytes "updateFee" ++ u64le chain ++ u64le (feeRound s a chain view fee).fv)) cons a = some (vinfo, true) ∧
+       o.st.fees = alPut (feeRound s a chain view fee).fees chain
+         ((feeRound s a chain view fee).fv + 1, medianFee ((feeRound s a chain view fee).entries.map (·.2)))) := by
+  unfold voteEntry
+  cases hp : plan H s (.fee sg a chain view fee) with
+  | error e => simp [exec, hp] at h
+  | ok p =>
+    simp only [exec, hp] at h
+    simp only [plan] at hp
+    repeat' split at hp
+    all_goals try (cases hp; done)
+    all_goals (injection hp with hp; subst hp; simp only [runPlan] at h; injection h with h; subst h)
+    all_goals (refine ⟨by simpa using ‹¬(!witness sg a) = true›, by simpa using ‹¬((alGet s.fees chain).getD (0, 0)).1 ≠ view›, ?_⟩)
+    all_goals first
+      | (left; rfl)
+      | (right; exact ⟨_, _, _, _, ‹curPool s = some _›, ‹consAddrs s _ = some _›, ‹voteStep _ _ a = some _›, rfl⟩)
 
 /-- Non-vacuity (tests on literals): 4 validators; an outsider is rejected, a repeat does not count, the third distinct
 validator releases, the fourth comes too late. -/
